@@ -193,32 +193,32 @@ def dcstep_vcs():
     for k, label in ((1, 'higher function value: cubic / quadratic'), (2, 'lower value, derivatives of opposite sign: cubic / secant'),
                      (4, 'lower value, same sign, |dp| >= |dx|: cubic through (stp, sty) when bracketed, else stpmax / stpmin')):
         hy = base + [R['case'][k], R[k]['defined']]
-        vcs.append(mkvc(f'mt/dcstep/case {k} ({label}): the new step is the reference\'s', DECLS, hy, f'(= {out_["stp"]} {R[k]["stpf"]})', about, src))
-        vcs.append(mkvc(f'mt/dcstep/case {k}: every division / sqrt the code executes is defined wherever the reference\'s are', DECLS, hy, dc['defined'], about, src))
+        vcs.append(mkvc(f'mt/dcstep/case{k}_step: case {k} ({label}): the new step is the reference\'s', DECLS, hy, f'(= {out_["stp"]} {R[k]["stpf"]})', about, src))
+        vcs.append(mkvc(f'mt/dcstep/case{k}_defined: every division / sqrt the code executes is defined wherever the reference\'s are', DECLS, hy, dc['defined'], about, src))
     hy = base + [R['case'][3], R[3]['defined_pos']]
-    vcs.append(mkvc('mt/dcstep/case 3 (lower value, same sign, |dp| < |dx|), discriminant > 0: the new step is the reference\'s (cubic step iff r < 0, closer / farther of cubic and secant, safeguard, clamp)',
+    vcs.append(mkvc('mt/dcstep/case3_step: case 3 (lower value, same sign, |dp| < |dx|), discriminant > 0: the new step is the reference\'s (cubic step iff r < 0, closer / farther of cubic and secant, safeguard, clamp)',
                     DECLS, hy, f'(= {out_["stp"]} {R[3]["stpf_pos"]})', about, src))
-    vcs.append(mkvc('mt/dcstep/case 3: every division / sqrt the code executes is defined wherever the reference\'s are', DECLS, hy, dc['defined'], about, src))
+    vcs.append(mkvc('mt/dcstep/case3_defined: every division / sqrt the code executes is defined wherever the reference\'s are', DECLS, hy, dc['defined'], about, src))
     hy = base + [R['case'][3], R[3]['defined_neg']]
-    vcs.append(mkvc('mt/dcstep/case 3, discriminant < 0 (MINPACK: gamma = 0; code: non-finite cubic step): both take stpmax / stpmin for the cubic step',
+    vcs.append(mkvc('mt/dcstep/case3_negative_discriminant: (MINPACK: gamma = 0; code: non-finite cubic step): both take stpmax / stpmin for the cubic step',
                     DECLS, hy, f'(= {out_["stp"]} {R[3]["stpf_neg"]})', about, src))
     hy = base + [R['case'][3], f'(= {R[3]["disc"]} 0.0)', '(not (= stp stx))', '(not (= dp dx))']
-    vcs.append(mkvc('mt/dcstep/case 3, discriminant = 0 (witness expected): the code keeps the cubic step where MINPACK falls back to stpmax / stpmin',
+    vcs.append(mkvc('mt/dcstep/case3_zero_discriminant_deviation: (witness expected): the code keeps the cubic step where MINPACK falls back to stpmax / stpmin',
                     DECLS, hy + [f'(not (= {out_["stp"]} {R[3]["stpf_neg"]}))'], None, 'documented deviation from MINPACK-2', src, expect='sat'))
     # properties of the result that do not need the interpolation numerics
     c3 = R['case'][3]
-    vcs.append(mkvc('mt/dcstep/case 3 bracketed: the new step is safeguarded by stp + delta*(sty - stp) (MINPACK: 0.66)', DECLS, base + [c3, 'brackt'],
+    vcs.append(mkvc('mt/dcstep/case3_safeguard: bracketed: the new step is safeguarded by stp + delta*(sty - stp) (MINPACK: 0.66)', DECLS, base + [c3, 'brackt'],
                     f'(ite (> stp stx) (<= {out_["stp"]} {R[3]["guard"]}) (>= {out_["stp"]} {R[3]["guard"]}))', about, src))
-    vcs.append(mkvc('mt/dcstep/case 3 / 4 not bracketed: the new step is clamped to [stpmin, stpmax]', DECLS,
+    vcs.append(mkvc('mt/dcstep/case34_clamp: not bracketed: the new step is clamped to [stpmin, stpmax]', DECLS,
                     base + [OR(c3, R['case'][4]), '(not brackt)', '(<= stpmin stpmax)'], f'(and (<= stpmin {out_["stp"]}) (<= {out_["stp"]} stpmax))', about, src))
     sg = f'(< {R["sgnd"]} 0.0)'
     upd = {'sty': f'(ite (> fp fx) stp (ite {sg} stx sty))', 'fy': f'(ite (> fp fx) fp (ite {sg} fx fy))', 'dy': f'(ite (> fp fx) dp (ite {sg} dx dy))',
            'stx': '(ite (> fp fx) stx stp)', 'fx': '(ite (> fp fx) fx fp)', 'dx': '(ite (> fp fx) dx dp)'}
-    vcs.append(mkvc('mt/dcstep/bracket update: (sty, fy, dy) := trial point if fp > fx, else [(sty, fy, dy) := (stx, fx, dx) if sgnd < 0] and (stx, fx, dx) := trial point',
+    vcs.append(mkvc('mt/dcstep/bracket_update: (sty, fy, dy) := trial point if fp > fx, else [(sty, fy, dy) := (stx, fx, dx) if sgnd < 0] and (stx, fx, dx) := trial point',
                     DECLS, base, AND(*[f'(= {out_[k]} {v})' for k, v in upd.items()]), about, src))
-    vcs.append(mkvc('mt/dcstep/brackt\' = brackt or case 1 or case 2', DECLS, base, f'(= {out_["brackt"]} (or brackt {R["case"][1]} {R["case"][2]}))', about, src))
-    vcs.append(mkvc('mt/dcstep/fp, dp, stpmin, stpmax, delta are not written', DECLS, [], AND(*[f'(= {out_[k]} {k})' for k in ('fp', 'dp', 'stpmin', 'stpmax', 'delta')]), about, src))
-    vcs.append(mkvc('mt/dcstep/the four cases are exhaustive and exclusive (reference conditions)', DECLS, base,
+    vcs.append(mkvc('mt/dcstep/brackt_flag: brackt\' = brackt or case 1 or case 2', DECLS, base, f'(= {out_["brackt"]} (or brackt {R["case"][1]} {R["case"][2]}))', about, src))
+    vcs.append(mkvc('mt/dcstep/frame: fp, dp, stpmin, stpmax, delta are not written', DECLS, [], AND(*[f'(= {out_[k]} {k})' for k in ('fp', 'dp', 'stpmin', 'stpmax', 'delta')]), about, src))
+    vcs.append(mkvc('mt/dcstep/cases_partition: the four cases are exhaustive and exclusive (reference conditions)', DECLS, base,
                     f'(and (or {" ".join(R["case"][k] for k in (1, 2, 3, 4))}) ' + ' '.join(f'(not (and {R["case"][a]} {R["case"][b]}))' for a in (1, 2, 3, 4) for b in (1, 2, 3, 4) if a < b) + ')',
                     about, src))
     for k in (1, 2, 4):
@@ -242,7 +242,7 @@ def convexq_vcs():
     R = reference()
     decl = [(k, 'Bool' if k == 'brackt' else 'Real') for k in ('stx', 'sty', 'stp', 'brackt', 'stpmin', 'stpmax', 'delta', 'qa', 'qb', 'qc', 'c1', 'c2')]
     vcs = []
-    for mode, B, extra in (('phi', 'qb', ['(<= c1 0.5)']), ('the modified function psi', '(* (- 1.0 c1) qb)', [])):
+    for mid, mode, B, extra in (('phi', 'phi', 'qb', ['(<= c1 0.5)']), ('psi', 'the modified function psi', '(* (- 1.0 c1) qb)', [])):
         q = lambda t: f'(+ (* qa {t} {t}) (* {B} {t}) qc)'
         dq = lambda t: f'(+ (* 2.0 qa {t}) {B})'
         m = {'fx': q('stx'), 'dx': dq('stx'), 'fp': q('stp'), 'dp': dq('stp'), 'fy': q('sty'), 'dy': dq('sty')}
@@ -252,22 +252,22 @@ def convexq_vcs():
         c12 = I(OR(R['case'][1], R['case'][2]))
         about = f'dcstep on samples of {mode} for a 1-D convex quadratic phi (double treated as real)'
         new = I(out_['stp'])
-        vcs.append(mkvc(f'convexq/dcstep on {mode}/cases 1 and 2: every division / sqrt of the code is defined and the new step is the exact minimiser of the sampled quadratic',
+        vcs.append(mkvc(f'convexq/dcstep_{mid}/case12_exact: cases 1 and 2 on samples of {mode}: every division / sqrt of the code is defined and the new step is the exact minimiser of the sampled quadratic',
                         decl, hy + [c12], f'(and {I(dc["defined"])} (= {new} {tstar}))', about, src))
         # (a trial point that IS the minimiser, dp = 0, falls into case 3 as well: the cubic step equals stp, is not "beyond" it, and the bound is taken)
-        vcs.append(mkvc(f'convexq/dcstep on {mode}/case 3, not bracketed, the trial point is not the minimiser itself and the minimiser lies inside [stpmin, stpmax]: the new step is the exact minimiser',
+        vcs.append(mkvc(f'convexq/dcstep_{mid}/case3_exact: case 3 on samples of {mode}, not bracketed, the trial point is not the minimiser itself and the minimiser lies inside [stpmin, stpmax]: the new step is the exact minimiser',
                         decl, hy + [I(R['case'][3]), '(not brackt)', I('(not (= dp 0.0))'), f'(<= stpmin {tstar})', f'(<= {tstar} stpmax)'], f'(and {I(dc["defined"])} (= {new} {tstar}))', about, src))
-        vcs.append(mkvc(f'convexq/dcstep on {mode}/case 3, bracketed: the new step is the exact minimiser cut by the safeguard stp + delta*(sty - stp)',
+        vcs.append(mkvc(f'convexq/dcstep_{mid}/case3_safeguarded: case 3 on samples of {mode}, bracketed: the new step is the exact minimiser cut by the safeguard stp + delta*(sty - stp)',
                         decl, hy + [I(R['case'][3]), 'brackt'], f'(= {new} (ite (> stp stx) (rmin {tstar} {R[3]["guard"]}) (rmax {tstar} {R[3]["guard"]})))', about, src))
-        vcs.append(mkvc(f'convexq/dcstep on {mode}/case 4 (lower value, same sign, |dp| >= |dx|) cannot occur on two distinct samples', decl, hy, NOT(I(R['case'][4])), about, src))
+        vcs.append(mkvc(f'convexq/dcstep_{mid}/case4_unreachable: on samples of {mode} case 4 (lower value, same sign, |dp| >= |dx|) cannot occur on two distinct samples', decl, hy, NOT(I(R['case'][4])), about, src))
         # the advertised conditions of More-Thuente, for phi, at the step dcstep returns in cases 1 / 2
         ph = lambda t: f'(+ (* qa {t} {t}) (* qb {t}) qc)'
         dph = lambda t: f'(+ (* 2.0 qa {t}) qb)'
         adv = f'(and (> {new} 0.0) (<= {ph(new)} (+ {ph("0.0")} (* c1 {new} {dph("0.0")}))) (<= (rabs {dph(new)}) (* c2 (rabs {dph("0.0")}))))'
         dom = ' and c1 <= 1/2' if extra else ' for every 0 < c1 < c2 < 1'
-        vcs.append(mkvc(f'convexq/dcstep on {mode}/cases 1 and 2: the new step is > 0 and satisfies Armijo and strong Wolfe for phi{dom} (the convergence test of do_get at the next evaluation)',
+        vcs.append(mkvc(f'convexq/dcstep_{mid}/armijo_strong_wolfe: cases 1 and 2 on samples of {mode}: the new step is > 0 and satisfies Armijo and strong Wolfe for phi{dom} (the convergence test of do_get at the next evaluation)',
                         decl, hy + extra + [c12], adv, about, src))
-        vcs.append(mkvc(f'convexq/dcstep on {mode}/reachability canary: cases 1 / 2 on samples of a convex quadratic are satisfiable', decl, hy + extra + [c12], None,
+        vcs.append(mkvc(f'convexq/dcstep_{mid}/reachability canary: cases 1 / 2 on samples of a convex quadratic are satisfiable', decl, hy + extra + [c12], None,
                         'vacuity guard (must be sat)', src, expect='sat'))
     return vcs
 
@@ -288,10 +288,10 @@ def h_dcstep_obs(wp, n, args, callee):
         ins[nm] = wp.conv(v, 'Bool', 'bool').t if nm == 'brackt' else wp.conv(v, 'Real', 'double').t
     H = wp.head
     ref = do_get_reference(H)
-    wp.oblige('stage at the interpolation is the reference\'s: 2 iff it was 2 or psi(stp) <= 0 and phi\'(stp) >= 0 (More & Thuente: the modified function is used until then)',
+    wp.oblige('stage_at_interpolation: the stage at the interpolation is the reference\'s: 2 iff it was 2 or psi(stp) <= 0 and phi\'(stp) >= 0 (More & Thuente: the modified function is used until then)',
               f'(= {wp.env["stage"].t} {ref["stage"]})', n)
     for nm in DC_ARGS:
-        wp.oblige(f'dcstep argument {nm} is the reference\'s (the modified function psi exactly when stage = 1, psi(stp) > 0 and f <= fx; phi otherwise)',
+        wp.oblige(f'dcstep_arg_{nm}: the dcstep argument {nm} is the reference\'s (the modified function psi exactly when stage = 1, psi(stp) > 0 and f <= fx; phi otherwise)',
                   f'(= {ins[nm]} {ref["args"][nm]})', n)
     outs = {}
     keys = {}
@@ -367,7 +367,7 @@ def build_do_get():
             smax = adv_smt.h_stpmax(wp, None, None, None).t
             init = {'stage': '1', 'stx': '0.0', 'sty': '0.0', 'fx': 'f_0', 'fy': 'f_0', 'gx': 'g0d', 'gy': 'g0d', 'stmin': '0.0', 'stmax': '(+ t0 (* 4.0 t0))',
                     'width': f'(- {smax} stpmin)', 'width1': f'(* 2.0 (- {smax} stpmin))', 'stp': 't0', 'f': 'f_in', 'g': 'gd_in'}
-            wp.oblige('initialisation is the START block of dcsrch (stage 1, not bracketed, bracket ends at the origin, stmin = 0, stmax = 5 stp, width, width1)',
+            wp.oblige('init: the initialisation is the START block of dcsrch (stage 1, not bracketed, bracket ends at the origin, stmin = 0, stmax = 5 stp, width, width1)',
                       AND(NOT(e['brackt'].t), *[f'(= {e[k].t} {v})' for k, v in init.items()]))
         if wp.inv_calls == 2:
             wp.head = dict(e)
@@ -376,24 +376,23 @@ def build_do_get():
                 ('f and g are the value and the slope of the current trial state', f'(and (= {e["f"].t} {e["state.fx"].t}) (= {e["g"].t} {e["state.dg"].t}))')]
 
     def body_post(wp, H, e):
-        out = []
         gs = [o['guard'] for o in wp.obs]
         one = AND(OR(*gs), *[NOT(AND(gs[a], gs[b])) for a in range(len(gs)) for b in range(len(gs)) if a < b])
-        out.append(('an iteration that goes on has called dcstep exactly once', one))
+        wp.oblige('one_dcstep: an iteration that goes on has called dcstep exactly once', one)
         if len(wp.upd) != 1:
             raise Unsupported(f'{wp.name}: {len(wp.upd)} evaluations in the loop body (the contract expects one)')
         ref = do_get_reference(H)
-        out.append(('stage after the iteration is the reference\'s', f'(= {e["stage"].t} {ref["stage"]})'))
+        wp.oblige('stage_after: the stage after the iteration is the reference\'s', f'(= {e["stage"].t} {ref["stage"]})')
         xtol = step_smt.h_eps('eps0')(wp, None, None, None).t
         smax = adv_smt.h_stpmax(wp, None, None, None).t
         for o in wp.obs:
             back, nxt = do_get_next(H, o['outs'], ref['mod'], ref['gtest'], 'stpmin', smax, xtol)
             for k, v in back.items():
-                out.append((f'after dcstep: {k} is the reference\'s (bracket values mapped back from psi to phi when the modified function was used; width / stmin / stmax update)',
-                            f'(=> {o["guard"]} (= {e[k].t} {v}))'))
-            out.append(('the next trial step is the reference\'s (bisection if the bracket did not shrink by 0.66, clamp to [stpmin, stpmax], fallback to stx when no progress is possible)',
-                        f'(=> {o["guard"]} (and (= {wp.upd[0][1]} {nxt}) (= {e["stp"].t} {nxt})))'))
-        return out
+                wp.oblige(f'after_dcstep_{k}: {k} is the reference\'s (bracket values mapped back from psi to phi when the modified function was used; width / stmin / stmax update)',
+                          f'(=> {o["guard"]} (= {e[k].t} {v}))')
+            wp.oblige('next_step: the next trial step is the reference\'s (bisection if the bracket did not shrink by 0.66, clamp to [stpmin, stpmax], fallback to stx when no progress is possible)',
+                      f'(=> {o["guard"]} (and (= {wp.upd[0][1]} {nxt}) (= {e["stp"].t} {nxt})))')
+        return []
     inv = step_smt.with_havoc(inv, HAVOC)
     inv.body_post = body_post
     return step_smt.mk('mt/do_get', MT, 'lsearchk_morethuente_t::do_get', 'do_get', setup, {1: inv},
